@@ -58,6 +58,15 @@ def near_misses(v, sel, val):
     return out
 
 
+class Raw(object):
+    """a selectors ARGUMENT handed over exactly as it is (not wrapped into a list)"""
+    def __init__(self, v):
+        self.v = v
+
+
+EMPTY_FORMS = [("empty-string", ""), ("empty-list", []), ("empty-tuple", ()), ("list-of-empty-string", [""])]
+
+
 def syntax_ok(sel):
     import re
     return bool(re.match(r"^([a-z0-9_-]{3,250}(\.(\[\d+\]|[a-z0-9_-]{1,250}))*|id)\Z", sel))
@@ -89,16 +98,16 @@ def entries(version, obj, dform, has_gm_prop, versionable):
     if has_gm_prop:
         def construct(sel):
             d = copy.deepcopy(dform)
-            d["granular_markings"] = [{"marking_ref": MREF, "selectors": list(sel) if isinstance(sel, (list, tuple)) else [sel]}]
+            d["granular_markings"] = [{"marking_ref": MREF, "selectors": sel.v if isinstance(sel, Raw) else list(sel) if isinstance(sel, (list, tuple)) else [sel]}]
             return stix2.parse(d, allow_custom=False)
         out.append(("construction", "parse(dict)", construct))
 
         def construct2(sel):
             d = copy.deepcopy(dform)
-            d["granular_markings"] = [{"marking_ref": MREF, "selectors": list(sel) if isinstance(sel, (list, tuple)) else [sel]}]
+            d["granular_markings"] = [{"marking_ref": MREF, "selectors": sel.v if isinstance(sel, Raw) else list(sel) if isinstance(sel, (list, tuple)) else [sel]}]
             return type(obj)(**d)
         out.append(("construction", "constructor", construct2))
-    L = lambda sel: list(sel) if isinstance(sel, (list, tuple)) else [sel]
+    L = lambda sel: sel.v if isinstance(sel, Raw) else list(sel) if isinstance(sel, (list, tuple)) else [sel]
     omarks = dform.get("object_marking_refs") or []
     for form, target in (("function-on-object", obj), ("function-on-dict", dform)):
         out.append((form, "get_markings", lambda sel, t=target: MK.get_markings(t, L(sel))))
@@ -110,6 +119,9 @@ def entries(version, obj, dform, has_gm_prop, versionable):
         if omarks:
             out.append((form, "is_marked(object-level marking,inherited)", lambda sel, t=target: MK.is_marked(t, omarks[0], L(sel), inherited=True)))
             out.append((form, "is_marked(object-level markings,inherited)", lambda sel, t=target: MK.is_marked(t, list(omarks), L(sel), inherited=True)))
+        if omarks and has_gm_prop and (versionable or form == "function-on-dict"):
+            out.append((form, "remove_markings(object-level marking)", lambda sel, t=target: MK.remove_markings(t, omarks[0], L(sel))))
+            out.append((form, "set_markings(object-level marking)", lambda sel, t=target: MK.set_markings(t, omarks[0], L(sel))))
         if form == "function-on-object" and hasattr(obj, "is_marked"):
             out.append((form, "obj.is_marked(no marking,inherited)", lambda sel: obj.is_marked(None, L(sel), inherited=True)))
         if has_gm_prop and (versionable or form == "function-on-dict"):
@@ -182,6 +194,10 @@ def explore(case, part, version, obj, dform, has_gm, versionable):
     if case.get("kind") == "implicit-extension":
         ents = [e for e in ents if e[0] != "construction"]
     only = case.get("selector")
+    if not only or case.get("selector_form"):
+        empty_selectors(case, part, ents)
+        if case.get("selector_form"):
+            return
     paths = [(s, v, f) for (s, v, f) in harness.selector_paths(dform) if s.split(".")[0] != "granular_markings"]
     for sel, val, feats in paths:
         if only and sel != only and not only.startswith(sel):
@@ -224,8 +240,27 @@ def explore(case, part, version, obj, dform, has_gm, versionable):
                                            dict(case, selector=nsel, entry=ename, derived_from=sel, list=lst), "refused", "accepted")
 
 
+def empty_selectors(case, part, ents):
+    """an empty selectors argument addresses nothing: every entry refuses it ('no selectors at all' is spelled None, not '' / [] / ())"""
+    for elabel, ev in EMPTY_FORMS:
+        if case.get("selector_form") and elabel != case["selector_form"]:
+            continue
+        for eclass, ename, call in ents:
+            if eclass == "construction" and elabel == "empty-tuple":
+                continue
+            part.evaluations += 1
+            part.transitions += 1
+            vd, err = verdict(lambda: call(Raw(copy.deepcopy(ev))))
+            part.outcome("empty-selectors:" + vd)
+            if vd == "accepted":
+                part.violation("C08/invalid-selector-accepted/%s/%s" % (elabel, eclass), "an empty selectors argument is accepted", dict(case, selector_form=elabel, entry=ename), "refused", "accepted")
+
+
 def replay(case, part):
     c = dict(case)
+    if "selector_form" in c:
+        c.pop("entry", None)
+        return run_instance(c, part)
     if "derived_from" in c:
         c["selector"] = c["selector"]
         # near misses are derived while walking the valid selector they come from
